@@ -76,8 +76,6 @@ package annotations
 //@ ensures implies(reMatches(re, s), len(result) == 10 && groupsOK(result, len(s)) && result[0] == 0 && fresh(result))
 //@ extern strings.TrimSpace pure
 //@ ensures len(result) <= len(s)
-//@ extern github.com/titanous/json5.Unmarshal
-//@ modifies cellof(v, map[string]any)
 
 //@ func parseCommentNode props C16,C14,C18
 //@ requires comment.Position.StartLine >= 0 && comment.Position.StartCol >= 0
